@@ -90,8 +90,9 @@ def exactSize (b : Bytes) (n : Nat) : Except Err Unit :=
 
 def sliceRange (b : Bytes) (i j : Nat) : Bytes := (b.take j).drop i
 
-/-- the length field read by `struct.unpack('!h c', bytes_[:3])` -/
-def lenField (b : Bytes) : Int := unpackBE16s (b.getD 0 0) (b.getD 1 0)
+/-- the length field read by `_unpack_length`: `struct.unpack('!H c', bytes_[:3])[0]` — unsigned since the repair of the
+    mis-decoding of received packets of 32767 bytes and more (before: `'!h c'`, `unpackBE16s`) -/
+def lenField (b : Bytes) : Int := ((b.getD 0 0 * 256 + b.getD 1 0 : Nat) : Int)
 
 /-- `SoupMessage.from_bytes(bytes_)[1]` -/
 def decode (b : Bytes) : Except Err Pkt :=
